@@ -2,6 +2,7 @@
 duration in the CDNS namespace (namespace scope, static data members, static locals): each must be const/constexpr.
 The schedule quantifier of C20 is outside this technique family."""
 from driver import ScanUnit
+import re
 
 
 def static_decls(ast):
@@ -90,3 +91,57 @@ def recursive_functions(ast):
 
 UNITS.append(ScanUnit('c03.recursion', recursive_functions, props=['C03'],
                       note='call graph of the library from the AST: no read-side function may be recursive (the depth of a recursion over nested CBOR items is controlled by the input)'))
+
+
+# ---------------------------------------------------------------- C20: writable static storage in the compiled library (every translation unit, every scope)
+def object_data(ast):
+    """compiles src/*.cpp (g++ -c) and lists every defined symbol that lives in a writable section (.data/.bss, also function-local statics and
+    anonymous-namespace objects, which the CDNS:: AST filter does not see). Allowed: compiler/runtime artefacts (typeinfo, vtables, guard
+    variables, std::__ioinit) and objects the AST scan shows to be const (dynamically initialised const tables live in .bss)."""
+    import subprocess, tempfile, glob, shutil, astload
+    from concurrent.futures import ThreadPoolExecutor
+    repo = astload.REPO
+    srcs = sorted(glob.glob(os.path.join(repo, 'src', '*.cpp')))
+    wd = tempfile.mkdtemp(prefix='cdnsverif-c20-')
+    try:
+        def cc(f):
+            o = os.path.join(wd, os.path.basename(f)[:-4] + '.o')
+            r = subprocess.run(['g++', '-std=c++14', '-msse4', '-O1', '-c', '-I', os.path.join(repo, 'src'), f, '-o', o], stdout=subprocess.PIPE, stderr=subprocess.PIPE)
+            if r.returncode != 0:
+                raise RuntimeError('g++ failed on %s: %s' % (f, r.stderr.decode()[-500:]))
+            return o
+        with ThreadPoolExecutor(max_workers=8) as ex:
+            objs = list(ex.map(cc, srcs))
+        const_names = set(n.split('.')[-1] for n, ok, d in static_decls(ast) if ok)
+        res = []
+        seen = set()
+        for o in objs:
+            out = subprocess.run(['objdump', '-t', '-C', o], stdout=subprocess.PIPE).stdout.decode()
+            for line in out.splitlines():
+                m = re.match(r'^[0-9a-f]+ (.{7}) (\S+)\t[0-9a-f]+ (.*)$', line)
+                if not m or 'O' not in m.group(1):
+                    continue           # objects only
+                sec, name = m.group(2), m.group(3).replace('.hidden ', '')
+                writable = sec.startswith(('.bss', '.tbss', '.tdata', '.data')) and not sec.startswith('.data.rel.ro')
+                if not writable:
+                    continue
+                key = (os.path.basename(o), name)
+                if key in seen:
+                    continue
+                seen.add(key)
+                artefact = name.startswith(('typeinfo ', 'vtable ', 'guard variable ', 'VTT ', 'std::__ioinit', 'DW.ref.', '__'))
+                base = name.split('::')[-1]
+                is_const = name.startswith('CDNS::') and base in const_names
+                ok = artefact or is_const
+                res.append(('%s:%s' % (os.path.basename(o), name), ok,
+                            '%s defines %s in the writable section %s: %s' % (os.path.basename(o), name, sec,
+                             'compiler/runtime artefact' if artefact else 'const object per the AST scan (dynamically initialised)' if is_const else 'MUTABLE static storage')))
+        return res
+    finally:
+        shutil.rmtree(wd, ignore_errors=True)
+
+
+import os
+UNITS.append(ScanUnit('c20.object_data', object_data, props=['C20'],
+                      note='symbol tables of the compiled library objects: no object of static storage duration in a writable section other than compiler artefacts and '
+                           'const tables - covers function-local statics, anonymous namespaces and file-scope helpers that the AST filter does not see'))
